@@ -126,6 +126,18 @@ def run(res, tier, rng, table_diffs=()):
         for y in fl:
             for op in OPS:
                 cases.append(("float", "%s %s %s" % (fsrc(x), op, fsrc(y)), expect_float(op, fval(x), fval(y))))
+    # float literals: the same operators on literal operands, in every operand form (literal/literal, variable, parameter on
+    # either side), zeros of both signs together in one program (equal constants are shared in the constant pool)
+    lits = [("0.0", 0.0), ("-0.0", -0.0), ("1.5", 1.5), ("-1.5", -1.5), ("0.1", 0.1), ("2.0", 2.0), ("-2.0", -2.0), ("1000000.25", 1000000.25)]
+    for (sa, a) in lits:
+        for (sb, b) in lits:
+            for op in OPS:
+                e = expect_float(op, a, b)
+                cases.append(("float-lit", "%s %s %s" % (sa, op, sb), e))
+                cases.append(("float-lit-var", "stel a = %s; a %s %s" % (sa, op, sb), e))
+                cases.append(("float-lit-var-other-zero", "stel z = 0.0; stel y = -0.0; stel a = %s; a %s %s" % (sa, op, sb), e))
+                cases.append(("float-lit-param", "functie(x) { x %s %s }(%s)" % (op, sb, sa), e))
+                cases.append(("float-lit-param-left", "functie(x) { %s %s x }(%s)" % (sa, op, sb), e))
     for s in lattice.STRINGS:
         for t in lattice.STRINGS:
             for op in ["<", "<=", ">", ">=", "==", "!="]:
